@@ -460,6 +460,8 @@ Definition go_print_text (mode : N) (ds : list pdir) (s : bstr) : bstr :=
 (* blocks, else-chains and case lists are types of their own (mutual with statements);
    by construction {else} is the last arm of an if and {default} the last case of a switch
    (the parser's shape after REPAIR C04-8), and a case has at least one value *)
+(* the data attribute of a call: none, data="all", data="$e" *)
+Inductive cdata := DNone | DAll | DExpr (e : cexpr).
 Inductive cstmt :=
 | SRaw (t : bstr)
 | SPrint (e : cexpr) (ds : list pdir)
@@ -471,10 +473,15 @@ Inductive cstmt :=
 | SForRange (x : bstr) (a1 : cexpr) (rest : list cexpr) (body : cblk) (hasie : bool) (ie : cblk)
     (* {for $x in range(a1, rest..)}body[{ifempty}ie]{/for}: one to three arguments *)
 | SCss (e : option cexpr) (sfx : bstr)                   (* {css sfx} / {css e, sfx} *)
+| SCall (name : bstr) (d : cdata) (ps : list (bstr * cexpr))
+    (* {call name [data="all" | data="$e"]}{param k: e /}..{/call}: value parameters *)
 with cblk := BNil | BCons (s : cstmt) (r : cblk)
 with celse := ENone | EElse (b : cblk) | EElif (c : cexpr) (th : cblk) (rest : celse)
 with ccases := KNone | KDefault (b : cblk) | KCase (v : cexpr) (vs : list cexpr) (b : cblk) (rest : ccases).
 
+Definition cparam_node (kv : bstr * cexpr) : node := NParamValue 0 (fst kv) (cnode (snd kv)).
+Definition cdata_all (d : cdata) : bool := match d with DAll => true | _ => false end.
+Definition cdata_node (d : cdata) : option node := match d with DExpr e => Some (cnode e) | _ => None end.
 Fixpoint snode (s : cstmt) : node :=
   match s with
   | SRaw t => NRawText 0 t
@@ -488,6 +495,7 @@ Fixpoint snode (s : cstmt) : node :=
   | SForRange x a1 rest body hasie ie =>
       NFor 0 x (NFunc 0 jn_range (cnode a1 :: map cnode rest)) (NList 0 (bnodes body)) (if hasie then Some (NList 0 (bnodes ie)) else None)
   | SCss e sfx => NCss 0 (match e with Some x => Some (cnode x) | None => None end) sfx
+  | SCall name d ps => NCall 0 name (cdata_all d) (cdata_node d) (map cparam_node ps)
   end
 with bnodes (b : cblk) : list node :=
   match b with BNil => [] | BCons s r => snode s :: bnodes r end
@@ -506,6 +514,7 @@ with knodes (k : ccases) : list node :=
 
 (* fuel that suffices for both walkers *)
 Definition cdepths (l : list cexpr) : nat := fold_right (fun x acc => Nat.max (cdepth x) acc) 0%nat l.
+Definition ddepth (d : cdata) : nat := match d with DExpr e => cdepth e | _ => 0%nat end.
 Fixpoint sdepth (s : cstmt) : nat :=
   match s with
   | SRaw _ => 1%nat
@@ -517,6 +526,7 @@ Fixpoint sdepth (s : cstmt) : nat :=
   | SFor _ e body _ ie => S (S (Nat.max (cdepth e) (Nat.max (bdepth body) (bdepth ie))))
   | SForRange _ a1 rest body _ ie => S (S (S (Nat.max (Nat.max (cdepth a1) (cdepths rest)) (Nat.max (bdepth body) (bdepth ie)))))
   | SCss e _ => S (S (match e with Some x => cdepth x | None => 0%nat end))
+  | SCall _ d ps => S (S (Nat.max (ddepth d) (cdepths (map snd ps))))
   end
 with bdepth (b : cblk) : nat :=
   match b with BNil => 0%nat | BCons s r => Nat.max (S (sdepth s)) (bdepth r) end
@@ -533,6 +543,8 @@ with kdepth (k : ccases) : nat :=
   | KCase v vs b rest => Nat.max (Nat.max (cdepth v) (cdepths vs)) (Nat.max (bdepth b) (kdepth rest))
   end.
 
+(* the data argument of a generated call: {} , opt_data, or an expression *)
+Inductive jdata := JDEmpty | JDOpt | JDExpr (e : jexpr).
 Inductive jstmt :=
 | JSAppendLit (buf t : bstr)                                   (* buf += 'text'; *)
 | JSAppend (buf : bstr) (e : jexpr)                            (* buf += e; *)
@@ -546,6 +558,8 @@ Inductive jstmt :=
     (* var vinit = ei; var vstep = es; var vlen = Math.max(0, Math.ceil((el - vinit) / vstep));
        [if (vlen > 0) {] for (var vidx = 0; vidx < vlen; vidx++) { var vd = vinit + vidx * vstep; body } [} else { ie }] *)
 | JSCss (buf : bstr) (e : option jexpr) (sfx : bstr)            (* [buf += e + '-';] buf += 'sfx'; *)
+| JSCall (buf name : bstr) (d : jdata) (ps : list (bstr * jexpr))
+    (* buf += name(d, opt_sb, opt_ijData);   or   buf += name(soy.$$augmentMap(d, {k: e, ..}), opt_sb, opt_ijData); *)
 with jblk := JBNil | JBCons (s : jstmt) (r : jblk)
 with jelse := JLNone | JLElse (b : jblk) | JLElif (c : jexpr) (th : jblk) (rest : jelse)
 with jcases := JKNone | JKDefault (b : jblk) | JKCase (v : jexpr) (vs : list jexpr) (b : jblk) (rest : jcases).
@@ -571,6 +585,9 @@ Definition range_args {A} (zero one : A) (args : list A) : option (A * A * A) :=
 (* the generator on statements: for an autoescape mode and a buffer variable, from a scope and a variable counter
    to the statement, the scope after it (a let binds) and the counter (never reset: var is function-scoped).
    A block is translated under a new empty frame that is dropped at its end. *)
+Definition dgen (sc : list (list (bstr * bstr))) (d : cdata) : jdata :=
+  match d with DNone => JDEmpty | DAll => JDOpt | DExpr e => JDExpr (cgen sc e) end.
+Definition pgen (sc : list (list (bstr * bstr))) (kv : bstr * cexpr) : bstr * jexpr := (fst kv, cgen sc (snd kv)).
 Fixpoint sgen (mode : N) (buf : bstr) (sc : list (list (bstr * bstr))) (n : N) (s : cstmt)
   : jstmt * (list (list (bstr * bstr)) * N) :=
   match s with
@@ -604,6 +621,7 @@ Fixpoint sgen (mode : N) (buf : bstr) (sc : list (list (bstr * bstr))) (n : N) (
       (JSForRange (jsc_name x (n + 1)) (jsc_name (x ++ t_init) (n + 1)) (jsc_name (x ++ t_step) (n + 1)) (jsc_name (x ++ t_limit) (n + 1))
                   (jsc_name (x ++ t_index) (n + 1)) ei es el jb hasie ji, (sc, n2))
   | SCss e sfx => (JSCss buf (match e with Some x => Some (cgen sc x) | None => None end) sfx, (sc, n))
+  | SCall name d ps => (JSCall buf name (dgen sc d) (map (pgen sc) ps), (sc, n))
   end
 with bgen (mode : N) (buf : bstr) (sc : list (list (bstr * bstr))) (n : N) (b : cblk) : jblk * N :=
   match b with
@@ -702,6 +720,35 @@ Definition js_range_count (l a s : Z) : outcome jval :=
   if (s =? 0)%Z then OutOfModel
   else if small (l - a) then js_num (Z.max 0 (- ((- (l - a)) / s))) else OutOfModel.
 
+(* soy.$$augmentMap(base, {k: v, ..}): an object whose own properties are the additional ones and whose prototype is
+   base; reading a property gives the additional value, else base's: on association lists, an update of base *)
+Definition js_augment (base : jval) (kvs : list (bstr * jval)) : outcome jval :=
+  match base with
+  | JObj m => Ok (JObj (fold_left (fun acc kv => aset acc (fst kv) (snd kv)) kvs m))
+  | _ => OutOfModel
+  end.
+Fixpoint js_eval_params (env : jenv) (ps : list (bstr * jexpr)) : outcome (list (bstr * jval)) :=
+  match ps with
+  | [] => Ok []
+  | (k, e) :: r => v <- js_eval env e ;; vs <- js_eval_params env r ;; Ok ((k, v) :: vs)
+  end.
+(* the data argument of a call *)
+Definition js_call_data (env : jenv) (d : jdata) (ps : list (bstr * jexpr)) : outcome jval :=
+  base <- match d with
+          | JDEmpty => Ok (JObj [])
+          | JDOpt => Ok (je_data env)
+          | JDExpr e => js_eval env e
+          end ;;
+  match ps with
+  | [] => Ok base
+  | _ => vs <- js_eval_params env ps ;; js_augment base vs
+  end.
+Definition js_ij_arg (env : jenv) : jval := match assoc_s t_opt_ij (je_vars env) with Some v => v | None => JUndef end.
+
+Section JsExec.
+(* calling the global function [name] with (data, opt_sb, ijData): the string it returns *)
+Variable jcall : bstr -> jval -> jval -> outcome bstr.
+
 (* var is function-scoped: a block does not restore anything *)
 Fixpoint js_exec (env : jenv) (s : jstmt) : outcome jenv :=
   match s with
@@ -747,6 +794,10 @@ Fixpoint js_exec (env : jenv) (s : jstmt) : outcome jenv :=
               | None => Ok env
               end ;;
       js_append_text env1 buf sfx
+  | JSCall buf name d ps =>
+      dv <- js_call_data env d ps ;;
+      r <- jcall name dv (js_ij_arg env) ;;
+      js_append_text env buf r
   end
 with jb_exec (env : jenv) (b : jblk) : outcome jenv :=
   match b with JBNil => Ok env | JBCons s r => env' <- js_exec env s ;; jb_exec env' r end
@@ -762,6 +813,7 @@ with jk_exec (env : jenv) (sv : jval) (k : jcases) : outcome jenv :=
   | JKDefault b => jb_exec env b
   | JKCase v vs b rest => h <- jk_hit env sv (v :: vs) ;; if h then jb_exec env b else jk_exec env sv rest
   end.
+End JsExec.
 
 (* ---- the Soy meaning: the bytes written and the environment afterwards (None = an error, or outside the subset) ---- *)
 Definition scalar_string (v : value) : option bstr :=
@@ -789,6 +841,28 @@ Section Sout.
   Variable ij : option value.
   Variable mode : N.
   Variable print_text : N -> list pdir -> bstr -> bstr.      (* go_print_text of Proofs/MiniJSStmt.v *)
+  Variable denv : bstr -> option value.                      (* the data of the template being rendered (what data="all" passes on) *)
+  Variable callee : bstr -> (bstr -> option value) -> option bstr.   (* the text a template writes for given data *)
+
+  (* the parameters of a call, evaluated in the caller's environment, over the data passed *)
+  Fixpoint cparams_env (env : bstr -> option value) (ps : list (bstr * cexpr)) (acc : bstr -> option value) : option (bstr -> option value) :=
+    match ps with
+    | [] => Some acc
+    | (k, e) :: r =>
+        if is_ident k then match ceval ij env e with Some v => cparams_env env r (env_set acc k v) | None => None end
+        else None
+    end.
+  Definition cdata_env (env : bstr -> option value) (d : cdata) : option (bstr -> option value) :=
+    match d with
+    | DNone => Some (fun _ => None)
+    | DAll => Some denv
+    | DExpr e =>
+        (* the keys of the map are identifiers (a key such as x.index would shadow the renderer's hidden loop variables) *)
+        match ceval ij env e with
+        | Some (VMap _ m) => if forallb (fun kv => is_ident (fst kv)) m then Some (fun k => assoc_s k m) else None
+        | _ => None
+        end
+    end.
 
   (* does one of the case values equal the switch value (all of them primitive) *)
   Fixpoint khit (env : bstr -> option value) (sv : value) (vs : list cexpr) : option bool :=
@@ -901,6 +975,15 @@ Section Sout.
             | None => None
             end
         end
+    | SCall name d ps =>
+        match cdata_env env d with
+        | Some base =>
+            match cparams_env env ps base with
+            | Some cenv => match callee name cenv with Some t => Some (t, env) | None => None end
+            | None => None
+            end
+        | None => None
+        end
     end
   with bout (env : bstr -> option value) (b : cblk) : option bstr :=
     match b with
@@ -939,6 +1022,18 @@ Fixpoint jk_values (ind : nat) (vs : list jexpr) : list chunk :=
   match vs with
   | [] => []
   | v :: r => sp_ind ind ++ [CText t_case] ++ jprint v ++ [CText t_colon; CText t_nl] ++ jk_values ind r
+  end.
+Definition jd_print (d : jdata) : list chunk :=
+  match d with JDEmpty => [CText t_empty_obj] | JDOpt => [CText t_opt_data] | JDExpr e => jprint e end.
+Fixpoint jps_print (first : bool) (ps : list (bstr * jexpr)) : list chunk :=
+  match ps with
+  | [] => []
+  | (k, e) :: r => (if first then [] else [CText t_comma_sp]) ++ [CName k; CText t_colon_sp] ++ jprint e ++ jps_print false r
+  end.
+Definition jcall_arg (d : jdata) (ps : list (bstr * jexpr)) : list chunk :=
+  match ps with
+  | [] => jd_print d
+  | _ => [CText t_augment] ++ jd_print d ++ [CText t_augment_mid] ++ jps_print true ps ++ [CText t_augment_end]
   end.
 Fixpoint sprint (ind : nat) (s : jstmt) : list chunk :=
   match s with
@@ -979,6 +1074,8 @@ Fixpoint sprint (ind : nat) (s : jstmt) : list chunk :=
        | None => []
        end)
       ++ [CText (indent_text ind); CName buf; CText t_pluseq; CStrLit 39 sfx; CText t_semi_nl]
+  | JSCall buf name d ps =>
+      sp_ind ind ++ ([CName buf; CText t_pluseq; CName name; CText t_lpar] ++ jcall_arg d ps ++ [CText t_call_tail]) ++ [CText t_nl]
   end
 with bprint (ind : nat) (b : jblk) : list chunk :=
   match b with JBNil => [] | JBCons s r => sprint ind s ++ bprint ind r end
@@ -1012,6 +1109,7 @@ Fixpoint swf (lv : list bstr) (s : cstmt) : bool :=
   | SForRange x a1 rest body _ ie =>
       is_ident x && (Nat.leb (length rest) 2) && cwf lv a1 && forallb (cwf lv) rest && bwf (x :: lv) body && bwf lv ie
   | SCss e _ => match e with Some x => cwf lv x | None => true end
+  | SCall _ d ps => (match d with DExpr e => cwf lv e | _ => true end) && forallb (fun kv => cwf lv (snd kv)) ps
   end
 with bwf (lv : list bstr) (b : cblk) : bool :=
   match b with BNil => true | BCons s r => swf lv s && bwf lv r end
